@@ -1,5 +1,6 @@
 import FGVerif.Proofs.C15
 import FGVerif.Proofs.C15General
+import FGVerif.Proofs.C15Halves
 #print axioms C15.balanced_mapped
 #print axioms C15.balanced_mapped_of
 #print axioms C15.reaction_nodes_eq
@@ -19,3 +20,8 @@ import FGVerif.Proofs.C15General
 #print axioms C15.G.halves_renamed
 #print axioms C15.G.nameByAam_toGr
 #print axioms C15.G.itsOK_toGr
+#print axioms C15.halfB_sound
+#print axioms C15.halvesB_sound
+#print axioms C15.halfSpec_pair_G
+#print axioms C15.halfSpec_pair_H
+#print axioms C15.halvesB_reaction
